@@ -28,6 +28,8 @@ def run(ctx):
         # requests that name OTHER fields (quantiles, another score column) together with obs / fcst: every requested field in every input
         dscommon.run_family(ctx, "C01Extra", fmt="text", always_nontrivial=True)
         dscommon.run_family(ctx, "C01Extra", fmt="text", fresh=False, always_nontrivial=True)
+        dscommon.run_family(ctx, "C01Close", fmt="text", always_nontrivial=True)
+        dscommon.run_family(ctx, "C01Close", fmt="netcdf", always_nontrivial=True)
         # scores of several quantities (obs, fcst, two quantiles): each takes the cases in which every quantity IT uses is present
         from harness.checks import c08
         c08._run(ctx, "quant", "small", limit=500)
@@ -46,6 +48,8 @@ def run(ctx):
         dscommon.run_family(ctx, "C02Sel", fmt="netcdf")
         dscommon.run_family(ctx, "C01Extra", fmt="text", always_nontrivial=True)
         dscommon.run_family(ctx, "C01Extra", fmt="text", fresh=False, always_nontrivial=True)
+        dscommon.run_family(ctx, "C01Close", fmt="text", always_nontrivial=True)
+        dscommon.run_family(ctx, "C01Close", fmt="netcdf", always_nontrivial=True)
         from harness.checks import c08
         c08._run(ctx, "quant", "small")
         ctx.exhaustive = True
